@@ -67,8 +67,11 @@ def run(ck, ctx):
             x = I.input("x")
             vals = []
             for mod in (PRESS_MOD, ATM_MOD):
-                fi = I.function(mod, fname)
-                r = I.run(I.func_node(fi), [x])
+                fnode = I.global_value(I.module(mod), fname)      # defined there or imported from the sibling
+                if fnode.op != "Func":
+                    raise AnalysisError(f"{mod}.{fname} is not a function of the package")
+                fi = fnode.attr
+                r = I.run(fnode, [x])
                 if r.value is None:
                     raise AnalysisError(f"{mod}:{fname} has no normal exit")
                 vals.append((mod, fi, r))
